@@ -61,6 +61,19 @@ Definition last_step (l : option (conn * smsg)) (i : item) : option (conn * smsg
 (* the message the bus is currently handling *)
 Definition last_recv (tr : list item) : option (conn * smsg) := fold_left last_step tr None.
 
+(* everything a connection wrote while it had a unique name: (connection, its name then, message) *)
+Fixpoint wrote_from (v : conn -> cstatus) (tr : list item) : list (conn * bytes * smsg) :=
+  match tr with
+  | [] => []
+  | i :: r =>
+      match i with
+      | TRecv c m => match v c with CNamed n => [(c, n, m)] | _ => [] end
+      | _ => []
+      end ++ wrote_from (view_step v i) r
+  end.
+
+Definition wrote (tr : list item) : list (conn * bytes * smsg) := wrote_from (fun _ => CAbsent) tr.
+
 Definition issued (tr : list item) : list bytes :=
   flat_map (fun i => match i with TIssue _ n => [n] | _ => [] end) tr.
 
@@ -76,11 +89,21 @@ Definition local_class (last : option (conn * smsg)) (s : scope) (m' : smsg) : P
 (* one emitted message, given who is who and which message is being handled.
    [strict]: the literal property; otherwise the exception classes are spelled out. *)
 Definition emit_ok (strict : bool) (v : conn -> cstatus) (last : option (conn * smsg))
-           (o : origin) (s : scope) (m' : smsg) : Prop :=
+           (log : list (conn * bytes * smsg)) (o : origin) (s : scope) (m' : smsg) : Prop :=
   match o with
   | ODriver => defined_only m' /\ sender_is m' drv_name
   | OClient c =>
       defined_only m' /\
+      match s with
+      | SReleased _ =>
+          (* a message the bus kept while a service was being started: it is something this very
+             connection wrote earlier, under the name it still has (names are never reused, so the
+             name identifies the connection) *)
+          match v c with
+          | CNamed n => sender_is m' n /\ exists m, In (c, n, m) log /\ same_content m m'
+          | _ => False
+          end
+      | _ =>
       (exists m, last = Some (c, m) /\ same_content m m') /\
       match v c with
       | CNamed n => sender_is m' n
@@ -90,12 +113,13 @@ Definition emit_ok (strict : bool) (v : conn -> cstatus) (last : option (conn * 
           if strict then False else s = SMonitors /\ sender_is m' not_active
       | CAbsent => False
       end
+      end
   | OLocal => if strict then False else defined_only m' /\ has_no_sender m' /\ local_class last s m'
   end.
 
 (* every emission of the trace, judged in the situation in which it is emitted *)
 Definition trace_ok (strict : bool) (tr : list item) : Prop :=
-  forall pre o s m' post, tr = pre ++ TEmit o s m' :: post -> emit_ok strict (view pre) (last_recv pre) o s m'.
+  forall pre o s m' post, tr = pre ++ TEmit o s m' :: post -> emit_ok strict (view pre) (last_recv pre) (wrote pre) o s m'.
 
 (* ---------------- the unique-name clause ---------------------------------------------------- *)
 Definition starts_with_colon (n : bytes) : Prop := exists r, n = 58 :: r.
@@ -123,5 +147,6 @@ Section Recipients.
     | STo c => c :: monitors
     | SBroadcast => bcast m ++ monitors
     | SSelf c => [c]
+    | SReleased c => route c m
     end.
 End Recipients.
